@@ -708,8 +708,11 @@ theorem segmented_eq_monolithic_propagate_fft (ph : ℝ → ℂ) (w0 : Fld ℂ) 
       C09.fft_eq_propagate_dft _ W0 W1 dx0 dx1 du0 du1 wl z os shape scrB lam S0 S1 so gB hfB hcons hp hp1 hz hos hS hW hfitB hposM hso i j hi hj]
   have key := fun r c => propagate_common_linear _ _ hposS hposM hemb
     (dftAlpha dx0 dx1 du0 du1 lam z os).1 (dftAlpha dx0 dx1 du0 du1 lam z os).2 so.1 so.2 so.1 so.2 1 none 0 0 (0 : ℝ) (0 : ℝ) r c
-  show (wfField 1 so.1 so.2 (propagateDftCommon _ _ _ so.1 so.2 so.1 so.2 1 none 0 0 (0 : ℝ) (0 : ℝ))).get i j
-     = (wfField 1 so.1 so.2 (propagateDftCommon _ _ _ so.1 so.2 so.1 so.2 1 none 0 0 (0 : ℝ) (0 : ℝ))).get i j
+  have e : ∀ X : List (Fld ℂ), wavefrontField 1 X so.1 so.2 = wfField 1 so.1 so.2 X :=
+    fun X => (wfField_eq 1 so.1 so.2 X).symm
+  rw [e, e]
+  show (wfField 1 so.1 so.2 (propagateDftCommon (chainMultiply ph ((s :: ss).map SplitPlane.seg) [w0]) _ _ so.1 so.2 so.1 so.2 1 none 0 0 (0 : ℝ) (0 : ℝ))).get i j
+     = (wfField 1 so.1 so.2 (propagateDftCommon (chainMultiply ph ((s :: ss).map SplitPlane.mono) [w0]) _ _ so.1 so.2 so.1 so.2 1 none 0 0 (0 : ℝ) (0 : ℝ))).get i j
   rw [C07.field_eq_sum _ _ _ i j hi hj, C07.field_eq_sum _ _ _ i j hi hj, key]
 
 end fft
